@@ -62,6 +62,7 @@ type c10w struct {
 	rejected map[string]int
 	order    []string // tags in the order the callback accepted them
 	arrival  []string // tags in the order the broker first sent them (QoS 0/1 only)
+	handed   []string // tags in the order the client handed them to the application callback (accepted or not)
 	nmsg     int
 	unkRel   int
 	owed     map[packet.ID]int
@@ -87,6 +88,7 @@ func (s *c10w) connect() bool {
 			return nil
 		}
 		tag := string(msg.Payload)
+		s.handed = append(s.handed, tag) // every hand-over to the application, whatever it answers
 		if s.pr.Reject && vrt.Choose(2, "callback-answer") == 1 {
 			s.rejected[tag]++
 			s.rejectedNow = tag
@@ -204,26 +206,34 @@ func (s *c10w) check() {
 		}
 		s.rejectedNow = ""
 	}
-	// QoS 0 / 1 messages reach the application in arrival order (C15, client part)
-	var got []string
-	seen := map[string]bool{}
-	for _, t := range s.order {
-		if s.tagQOS[t] < 2 && !seen[t] { // a duplicate QoS 1 delivery may repeat a message; its first delivery counts
-			seen[t] = true
-			got = append(got, t)
+	// QoS 0 / 1 messages reach the application in arrival order, per QoS level (C15, client part): the first hand-overs
+	// (accepted or rejected - a rejected message comes again later as a duplicate) follow the order of first transmission
+	for _, lvl := range []packet.QOS{0, 1} {
+		var got, sent []string
+		seen := map[string]bool{}
+		for _, t := range s.handed {
+			if s.tagQOS[t] == lvl && !seen[t] {
+				seen[t] = true
+				got = append(got, t)
+			}
 		}
-	}
-	pos := -1
-	idx := map[string]int{}
-	for i, t := range s.arrival {
-		idx[t] = i
-	}
-	for _, t := range got {
-		if idx[t] < pos {
-			s.x.Failf("callback-order", "callback-out-of-order", "the application received %v, the broker sent them as %v", got, s.arrival)
-			break
+		for _, t := range s.arrival {
+			if s.tagQOS[t] == lvl {
+				sent = append(sent, t)
+			}
 		}
-		pos = idx[t]
+		pos := -1
+		idx := map[string]int{}
+		for i, t := range sent {
+			idx[t] = i
+		}
+		for _, t := range got {
+			if idx[t] < pos {
+				s.x.Failf("callback-order", "callback-out-of-order", "QoS %d messages were handed to the application as %v, the broker first sent them as %v", lvl, got, sent)
+				break
+			}
+			pos = idx[t]
+		}
 	}
 }
 
